@@ -16,6 +16,15 @@
   two calls (`place`, `eqStart`); the placement functions themselves are the
   subject of C08/C09.  `rank` is the value the literal denotes in the ordered
   domain of the sharding column (used by the semantics, never by routing).
+
+  proxy/plan/plan_select.go  getShardingCompareValue (fix commits 1707815,
+  d3d5b3a, 79ccd38): a literal the rule cannot place (hexadecimal, bit, decimal,
+  float, NULL; a string the rule does not read as MySQL does) is never handed
+  to `FindTableIndex`; the comparison keeps every sub table.  Such a literal
+  has `wide = true` (Model/RouteLit.lean computes the flag from the kind and
+  value of the literal and the type of the rule).  `sem` says how the value
+  `rank` is compared with a row: exactly, as a value strictly between `rank`
+  and `rank + 1` (a decimal with a fraction), or as NULL.
   Core Lean only.
 -/
 namespace GaeaVerif.Route
@@ -32,13 +41,27 @@ def Cmp.inverse : Cmp → Cmp
   | .le => .ge
   | o => o
 
+/-- How the value of a literal is compared with the value of a row. -/
+inductive Sem where
+  /-- the literal denotes exactly `rank` (`rank = none`: a value this model does not determine) -/
+  | exact
+  /-- the literal denotes a value strictly between `rank` and `rank + 1` (`1.5`, `'7.25'`) -/
+  | frac
+  /-- the literal is NULL: every comparison with it is NULL -/
+  | null
+  deriving DecidableEq, Repr
+
 structure Lit where
-  /-- value denoted in the column's ordered domain (`none`: NULL / not a value of the column type) -/
+  /-- value denoted in the column's ordered domain (`none`: not a value this model determines) -/
   rank : Option Int
   /-- `rule.FindTableIndex(v)`: `none` = error -/
   place : Option Int
   /-- `rangeShard.EqualStart(v, place)` -/
   eqStart : Bool
+  /-- `getShardingCompareValue` reports the literal as not routable: the rule is not asked -/
+  wide : Bool := false
+  /-- how `rank` is compared with a row value -/
+  sem : Sem := .exact
   deriving DecidableEq, Repr
 
 /-- Condition trees as `handleComparisonExpr` sees them. `onShard` tells whether
@@ -164,12 +187,13 @@ def route (r : Rule) : Cond → Option (Bool × List Int)
     | _, _ => none
   | .cmp onShard litLeft op l =>
     if r.isGlobal then some (false, []) else
+    if l.wide then some (true, r.idxs) else
     (findTableIndexes r (if litLeft then op.inverse else op) onShard l).map fun is => (true, is)
   | .inList onShard neg ls =>
-    if r.isGlobal || neg || !onShard then some (true, r.idxs)
+    if r.isGlobal || neg || !onShard || ls.any (·.wide) then some (true, r.idxs)
     else (allPlaces ls).map fun ps => (true, sortDedup ps)
   | .between onShard neg lo hi =>
-    if r.isGlobal || !onShard || !r.isRange then some (true, r.idxs)
+    if r.isGlobal || !onShard || !r.isRange || lo.wide || hi.wide then some (true, r.idxs)
     else (shardBetween r neg lo hi).map fun is => (true, is)
 
 /-- `handleWhere` on a fresh route result (`NewRouteResult(…, rule.GetSubTableIndexes())`). -/
@@ -212,6 +236,43 @@ def allRanks : List Lit → Option (List Int)
     | some v, some vs => some (v :: vs)
     | _, _ => none
 
+def not3 : Option Bool → Option Bool
+  | some b => some (!b)
+  | none => none
+
+/-- `x op (v + ½)`: comparison with a value strictly between `v` and `v + 1` -/
+def Cmp.holdsFrac (op : Cmp) (x v : Int) : Bool :=
+  match op with
+  | .eq => false
+  | .ne => true
+  | .lt => x ≤ v
+  | .le => x ≤ v
+  | .gt => x > v
+  | .ge => x > v
+
+/-- `x op literal` in SQL's three-valued logic; the outer `none`: the model
+    does not determine the value the literal denotes. -/
+def Lit.cmp3 (l : Lit) (op : Cmp) (x : Int) : Option (Option Bool) :=
+  match l.sem with
+  | .null => some none
+  | .frac => l.rank.map fun v => some (op.holdsFrac x v)
+  | .exact => l.rank.map fun v => some (op.holds x v)
+
+/-- `x IN (literals)` in three-valued logic: TRUE when some literal equals `x`,
+    otherwise NULL when a NULL is listed, otherwise FALSE; the outer `none` as
+    in `cmp3`. -/
+def in3 (ls : List Lit) (x : Int) : Option (Option Bool) :=
+  if ls.any (fun l => l.sem != .null && l.rank.isNone) then none
+  else if ls.any (fun l => l.sem == .exact && l.rank == some x) then some (some true)
+  else if ls.any (fun l => l.sem == .null) then some none
+  else some (some false)
+
+/-- `x BETWEEN lo AND hi` is `x >= lo AND x <= hi` -/
+def between3 (lo hi : Lit) (x : Int) : Option (Option Bool) :=
+  match lo.cmp3 .ge x, hi.cmp3 .le x with
+  | some p, some q => some (and3 p q)
+  | _, _ => none
+
 /-- Truth value of the condition on a row whose sharding column holds `x`;
     `env` gives the truth value of everything that does not depend on the
     sharding column alone (other columns, opaque predicates, non-denotable
@@ -223,19 +284,35 @@ def eval (env : Cond → Option Bool) (x : Int) : Cond → Option Bool
   | .or a b => or3 (eval env x a) (eval env x b)
   | .cmp onShard litLeft op l =>
     if !onShard then env (.cmp onShard litLeft op l) else
-    match l.rank with
-    | none => env (.cmp onShard litLeft op l)
-    | some v => some (if litLeft then op.holds v x else op.holds x v)
+    match l.sem with
+    | .exact =>
+      match l.rank with
+      | none => env (.cmp onShard litLeft op l)
+      | some v => some (if litLeft then op.holds v x else op.holds x v)
+    | _ =>
+      match l.cmp3 (if litLeft then op.inverse else op) x with
+      | none => env (.cmp onShard litLeft op l)
+      | some t => t
   | .inList onShard neg ls =>
     if !onShard then env (.inList onShard neg ls) else
-    match allRanks ls with
-    | none => env (.inList onShard neg ls)
-    | some vs => some (vs.contains x != neg)
+    if ls.all (fun l => l.sem == .exact) then
+      match allRanks ls with
+      | none => env (.inList onShard neg ls)
+      | some vs => some (vs.contains x != neg)
+    else
+      match in3 ls x with
+      | none => env (.inList onShard neg ls)
+      | some t => if neg then not3 t else t
   | .between onShard neg lo hi =>
     if !onShard then env (.between onShard neg lo hi) else
-    match lo.rank, hi.rank with
-    | some a, some b => some ((decide (a ≤ x) && decide (x ≤ b)) != neg)
-    | _, _ => env (.between onShard neg lo hi)
+    if lo.sem == .exact && hi.sem == .exact then
+      match lo.rank, hi.rank with
+      | some a, some b => some ((decide (a ≤ x) && decide (x ≤ b)) != neg)
+      | _, _ => env (.between onShard neg lo hi)
+    else
+      match between3 lo hi x with
+      | none => env (.between onShard neg lo hi)
+      | some t => if neg then not3 t else t
 
 /-- the literals compared with the sharding column -/
 def shardLits : Cond → List Lit
@@ -459,25 +536,41 @@ def evalJ (env : JCond → Option Bool) (vals : Nat → Option Int) : JCond → 
     match vals t with
     | none => none
     | some x =>
-      match l.rank with
-      | none => env (.cmp (.key t) litLeft op l)
-      | some v => some (if litLeft then op.holds v x else op.holds x v)
+      match l.sem with
+      | .exact =>
+        match l.rank with
+        | none => env (.cmp (.key t) litLeft op l)
+        | some v => some (if litLeft then op.holds v x else op.holds x v)
+      | _ =>
+        match l.cmp3 (if litLeft then op.inverse else op) x with
+        | none => env (.cmp (.key t) litLeft op l)
+        | some r => r
   | .cmp c litLeft op l => env (.cmp c litLeft op l)
   | .inList (.key t) neg ls =>
     match vals t with
     | none => none
     | some x =>
-      match allRanks ls with
-      | none => env (.inList (.key t) neg ls)
-      | some vs => some (vs.contains x != neg)
+      if ls.all (fun l => l.sem == .exact) then
+        match allRanks ls with
+        | none => env (.inList (.key t) neg ls)
+        | some vs => some (vs.contains x != neg)
+      else
+        match in3 ls x with
+        | none => env (.inList (.key t) neg ls)
+        | some r => if neg then not3 r else r
   | .inList c neg ls => env (.inList c neg ls)
   | .between (.key t) neg lo hi =>
     match vals t with
     | none => none
     | some x =>
-      match lo.rank, hi.rank with
-      | some a, some b => some ((decide (a ≤ x) && decide (x ≤ b)) != neg)
-      | _, _ => env (.between (.key t) neg lo hi)
+      if lo.sem == .exact && hi.sem == .exact then
+        match lo.rank, hi.rank with
+        | some a, some b => some ((decide (a ≤ x) && decide (x ≤ b)) != neg)
+        | _, _ => env (.between (.key t) neg lo hi)
+      else
+        match between3 lo hi x with
+        | none => env (.between (.key t) neg lo hi)
+        | some r => if neg then not3 r else r
   | .between c neg lo hi => env (.between c neg lo hi)
 
 /-- the literals compared with a sharding column -/
